@@ -24,7 +24,7 @@ from instr import core, diskcache
 ID = 'C11'
 COQ_PROP = 'C11'
 LEVEL = 'proof'
-TRANSLATE = ['persistent']
+TRANSLATE = ['persistent', 'sql', 'disk', 'fanout', 'django']
 TRUSTED = [
     'collections.deque (CPython) is the oracle of the differential monitor: results, exception classes and contents of Deque are compared with it after every call',
     'the abstract queue cache of model/QCache.v stands for Cache.push/pull/peek/get/set/del/iterkeys on integer queue keys (what C10/C03 establish for Cache with eviction_policy none and no expiry); tied to the implementation by comparing results, contents AND the integer queue keys after every call of every generated history',
